@@ -21,7 +21,7 @@ func codecPatterns() []string {
 	for _, p := range codecPkgs {
 		out = append(out, "./"+p)
 	}
-	return append(out, "./pkg/protocol/xprotocol", "./pkg/stream/xprotocol", "./pkg/protocol", "./pkg/stream/http", "./pkg/module/http2", "./pkg/proxy", "./pkg/network")
+	return append(out, "./pkg/protocol/xprotocol", "./pkg/stream/xprotocol", "./pkg/protocol", "./pkg/stream/http", "./pkg/stream/http2", "./pkg/module/http2", "./pkg/proxy", "./pkg/network")
 }
 
 func init() {
@@ -339,7 +339,7 @@ func runC07(c *Ctx) {
 	c.Rule("C07.B2t", "the tars decoder parses a package and reports errors only once the framing test answered PACKAGE_FULL", 3)
 	c.Rule("C07.B2r", "the network layer recycles the read buffer only when it is empty (unconsumed bytes are never discarded)", 2)
 	c.Rule("C07.B2h", "HTTP/2 frame reader: re-read loops advance, drain once and last by the reported size, HPACK fed only after the block arrived", 5)
-	c.Rule("C07.B2d", "Dispatch: loop exits only on empty/(nil,nil)/error; a frame goes to handleFrame exactly once", 5)
+	c.Rule("C07.B2d", "Dispatch: loop exits only on empty/(nil,nil)/error; a frame goes to handleFrame exactly once; HTTP/2 loops are left only on Decode's own verdict", 11)
 	c.Assumptions = append(c.Assumptions,
 		"lengths are mathematical integers on a 64-bit int; uint32 wrap-around of (length field + small constant), i.e. frames >= 4 GiB, is outside the model",
 		"IoBuffer axioms (mosn.io/pkg/buffer/iobuffer.go): Len()==len(Bytes()) when no mutating call on the buffer lies between; a slice keeps its length after a later Drain; Drain(n) is a silent no-op when n > Len()",
@@ -360,6 +360,7 @@ func runC07(c *Ctx) {
 	br.runB2(decodes, "C07.B2")
 	br.runB3(matchers)
 	runC07Dispatch(c)
+	c07H2Dispatch(c, "C07.B2d")
 	runC07HTTPMatcher(c)
 	runC07H2(c, "C07.B1", "C07.B2h")
 	runC07Detection(c)
